@@ -74,11 +74,22 @@ type HistJ struct {
 	Rej   bool   `json:"rej"`
 }
 
+// RowJ is one row of the Complexity(type, field) table the specification prescribes.
+type RowJ struct {
+	Type  string `json:"type"`
+	Field string `json:"field"`
+	Child Num    `json:"child"`
+	X     string `json:"x"` // none | set
+	Ok    bool   `json:"ok"`
+	V     Num    `json:"v"`
+}
+
 type CaseJ struct {
 	Sels  []SelJ  `json:"sels"`
-	Costs []CostJ `json:"costs"`
+	Costs []CostJ `json:"costs"` // slot = the ComplexityRoot ENTRY (state bnd maps GraphQL fields to entries)
 	Cx    Num     `json:"cx"`
 	Gate  []GateJ `json:"gate"`
+	Table []RowJ  `json:"table"` // only the "no operation" case of the bind corpus
 	// histories (ComplexityGate)
 	Cache    string  `json:"cache"`
 	NDefault int64   `json:"ndefault"` // default of $n, -1 = none
@@ -88,6 +99,9 @@ type CaseJ struct {
 type FieldA struct {
 	Type string `json:"type"`
 	Arg  bool   `json:"arg"`
+	Bind string `json:"bind"` // "" = own ComplexityRoot entry, else the entry of the type shared by all fields naming it
+	How  string `json:"how"`  // yml | gofield | collapse | natural | resolver | resolver-own
+	Ord  int    `json:"ord"`  // position among the fields of its entry in declaration order
 }
 
 type TypeA struct {
@@ -102,6 +116,8 @@ type SchemaA struct {
 	Schema map[string]*TypeA `json:"schema"`
 	ArgVal int64             `json:"argval"`
 	Max    Num               `json:"max"`
+	// Binding[T][f] = the entry serving the GraphQL field T.f (the initial value of the state variable bnd)
+	Binding map[string]map[string]string `json:"binding"`
 }
 
 // conc maps the symbolic number h*H + d to a Go int, H = (math.MaxInt-1)/2.
@@ -244,13 +260,14 @@ func renderSDL(s *SchemaA) string {
 }
 
 type hwES struct {
-	schema *ast.Schema
-	costs  map[string]ur.C14Cost
+	schema  *ast.Schema
+	binding map[string]map[string]string // GraphQL field -> entry, as the specification's state bnd says
+	costs   map[string]ur.C14Cost        // by entry
 }
 
 func (e *hwES) Schema() *ast.Schema { return e.schema }
 func (e *hwES) Complexity(ctx context.Context, typeName, field string, child int, args map[string]any) (int, bool) {
-	c, ok := e.costs[typeName+"."+field]
+	c, ok := e.costs[e.binding[typeName][field]]
 	if !ok {
 		return 0, false
 	}
@@ -283,6 +300,17 @@ type Conc struct {
 	Shape   string     `json:"shape"`
 	CostCls string     `json:"costclass"`
 	Abs     *CaseJ     `json:"abstract,omitempty"`
+	// table case: what Complexity(type, field, child, args) must answer for Case.Table[i]
+	TableExp []CellExp `json:"table_exp,omitempty"`
+	// the operation goes through a field that is NOT the first-declared one of a shared ComplexityRoot entry
+	NonFirst bool `json:"non_first_shared,omitempty"`
+}
+
+// CellExp is the prescribed answer of ExecutableSchema.Complexity for one probe.
+type CellExp struct {
+	Ok    bool   `json:"ok"`
+	V     int64  `json:"v"`
+	Class string `json:"class"`
 }
 
 type renderer struct {
@@ -484,7 +512,8 @@ func concretise(s *SchemaA, src string, idx int, c *CaseJ, decoys []*CaseJ, r *r
 	} else {
 		doc = strings.Join(append(append([]string{}, ops...), fragDefs...), "\n")
 	}
-	cc := &Conc{Src: src, Idx: idx, Variant: variant, Cx: conc(c.Cx), Shape: shapeOf(c.Sels), CostCls: costClass(c.Costs), Abs: c}
+	cc := &Conc{Src: src, Idx: idx, Variant: variant, Cx: conc(c.Cx), Shape: shapeOf(c.Sels), CostCls: costClass(c.Costs), Abs: c,
+		NonFirst: nonFirstShared(s, "Query", c.Sels)}
 	cc.Case = ur.C14Case{Cmd: "c14", ID: fmt.Sprintf("%s-%d-%s", src, idx, argMode), Query: doc, OpName: opName, Vars: vars,
 		Costs: map[string]ur.C14Cost{}, Fixed: fixed}
 	for _, k := range c.Costs {
@@ -500,6 +529,79 @@ func concretise(s *SchemaA, src string, idx int, c *CaseJ, decoys []*CaseJ, r *r
 		cc.LimRel = append(cc.LimRel, limRel(l, cc.Cx))
 	}
 	return cc
+}
+
+// nonFirstShared reports whether the tree selects a field that shares its ComplexityRoot entry with a
+// field declared before it.
+func nonFirstShared(s *SchemaA, tn string, sels []SelJ) bool {
+	for _, sl := range sels {
+		switch sl.K {
+		case "field":
+			t := s.Schema[tn]
+			if t == nil {
+				continue
+			}
+			fd, ok := t.Fields[sl.Name]
+			if !ok {
+				continue
+			}
+			if t.Kind == "OBJECT" && fd.Bind != "" && fd.Ord > 1 {
+				return true
+			}
+			if nonFirstShared(s, fd.Type, sl.Sels) {
+				return true
+			}
+		default:
+			on := sl.On
+			if on == "" {
+				on = tn
+			}
+			if nonFirstShared(s, on, sl.Sels) {
+				return true
+			}
+		}
+	}
+	return false
+}
+
+// concretiseTable turns the "no operation" case into direct calls of ExecutableSchema.Complexity.
+func concretiseTable(s *SchemaA, idx int, c *CaseJ) *Conc {
+	cc := &Conc{Src: "table", Idx: idx, Variant: "table", Shape: "Complexity()", CostCls: costClass(c.Costs), Abs: c}
+	cc.Case = ur.C14Case{Cmd: "c14", ID: fmt.Sprintf("table-%d", idx), Vars: map[string]any{}, Costs: map[string]ur.C14Cost{}}
+	for _, k := range c.Costs {
+		cc.Case.Costs[k.Slot] = ur.C14Cost{K: k.Fn.K, C: conc(k.Fn.C), M: k.Fn.M}
+	}
+	rows := append([]RowJ{}, c.Table...)
+	sort.Slice(rows, func(i, j int) bool {
+		a, b := rows[i], rows[j]
+		ka := fmt.Sprintf("%s.%s/%020d/%s", a.Type, a.Field, conc(a.Child), a.X)
+		kb := fmt.Sprintf("%s.%s/%020d/%s", b.Type, b.Field, conc(b.Child), b.X)
+		return ka < kb
+	})
+	for _, r := range rows {
+		fd := s.Schema[r.Type].Fields[r.Field]
+		cc.Case.Table = append(cc.Case.Table, ur.C14Probe{Type: r.Type, Field: r.Field, Child: conc(r.Child), HasX: r.X == "set", X: s.ArgVal})
+		how := fd.How
+		if fd.Bind != "" {
+			how = fmt.Sprintf("%s#%d", fd.How, fd.Ord)
+		}
+		cc.TableExp = append(cc.TableExp, CellExp{Ok: r.Ok, V: conc(r.V),
+			Class: fmt.Sprintf("table|%s.%s|%s|%s|x=%s|custom=%v", r.Type, r.Field, how, cc.CostCls, r.X, r.Ok)})
+	}
+	return cc
+}
+
+// withExtras adds, for a generated server, every (type, field) of the probe's schema that the abstract
+// schema does not mention: such a field is served by its own entry (bind = ""), no table assignment
+// names it, so Complexity() must answer "no custom cost".
+func withExtras(cc *Conc, extras []ur.C14Probe) *Conc {
+	c2 := *cc
+	c2.Case.Table = append(append([]ur.C14Probe{}, cc.Case.Table...), extras...)
+	c2.TableExp = append([]CellExp{}, cc.TableExp...)
+	for _, e := range extras {
+		c2.TableExp = append(c2.TableExp, CellExp{Ok: false, V: 0, Class: fmt.Sprintf("table|%s.%s|outside-the-abstract-schema", e.Type, e.Field)})
+	}
+	return &c2
 }
 
 // concretiseHist renders one history of ComplexityGate: one query text, a sequence of requests.
@@ -527,7 +629,8 @@ func concretiseHist(s *SchemaA, idx int, c *CaseJ, r *rand.Rand) *Conc {
 		doc += "\n" + strings.Join(rd.fragDef, "\n")
 	}
 	other := "query " + opName + " { s }"
-	cc := &Conc{Src: "hist", Idx: idx, Variant: fmt.Sprintf("cache=%s/ndefault=%d", c.Cache, c.NDefault), Shape: shapeOf(c.Sels), CostCls: costClass(c.Costs), Abs: c}
+	cc := &Conc{Src: "hist", Idx: idx, Variant: fmt.Sprintf("cache=%s/ndefault=%d", c.Cache, c.NDefault), Shape: shapeOf(c.Sels), CostCls: costClass(c.Costs), Abs: c,
+		NonFirst: nonFirstShared(s, "Query", c.Sels)}
 	cc.Case = ur.C14Case{Cmd: "c14", ID: fmt.Sprintf("hist-%d", idx), Query: doc, OpName: opName, Vars: map[string]any{},
 		Costs: map[string]ur.C14Cost{}, Cache: c.Cache}
 	for _, k := range c.Costs {
@@ -582,7 +685,10 @@ type counters struct {
 	multi, spreads, iface, argvar, sat  int64
 	calcs                               int64
 	respread, histReqs, histCached      int64
-	sampled                             map[string]bool
+	// shared entries: cases through a non-first field of a shared entry, requests of such cases over / within
+	// the limit, cells of the Complexity() table compared, of them cells of non-first fields with a custom cost
+	nonFirst, nonFirstRej, nonFirstAdm, cells, cellsNonFirstCustom, cellsExtra int64
+	sampled                                                                    map[string]bool
 }
 
 func (k *counters) add(f func()) { k.mu.Lock(); f(); k.mu.Unlock() }
@@ -596,6 +702,10 @@ func judge(c *vlib.Check, k *counters, binding string, probe bool, cc *Conc, res
 	if res.Err != "" {
 		// the concretiser produced something the real validator rejects, or the probe lacks a slot: our problem
 		vlib.Infra("[%s] case %s not executable: %s\n%s", binding, cc.Case.ID, res.Err, cc.Case.Query)
+	}
+	if len(cc.Case.Table) > 0 {
+		judgeTable(c, k, binding, cc, res, replay)
+		return
 	}
 	desc := func() string {
 		cj, _ := json.Marshal(cc.Case.Costs)
@@ -637,6 +747,15 @@ func judge(c *vlib.Check, k *counters, binding string, probe bool, cc *Conc, res
 			continue
 		}
 		isRejected := len(r.Errors) > 0 && !r.HasData
+		if cc.NonFirst {
+			k.add(func() {
+				if cc.Rej[i] {
+					k.nonFirstRej++
+				} else {
+					k.nonFirstAdm++
+				}
+			})
+		}
 		if cc.Rej[i] {
 			k.add(func() { k.rejected++ })
 			if r.Resolved > 0 {
@@ -689,12 +808,52 @@ func judge(c *vlib.Check, k *counters, binding string, probe bool, cc *Conc, res
 		if cc.Cx == math.MaxInt64 {
 			k.sat++
 		}
+		if cc.NonFirst {
+			k.nonFirst++
+		}
 	})
+}
+
+// judgeTable compares what ExecutableSchema.Complexity answered with the table the specification prescribes.
+func judgeTable(c *vlib.Check, k *counters, binding string, cc *Conc, res *ur.C14Result, replay map[string]any) {
+	if len(res.Cells) != len(cc.Case.Table) || len(cc.TableExp) != len(cc.Case.Table) {
+		vlib.Infra("[%s] %d cells for %d probes", binding, len(res.Cells), len(cc.Case.Table))
+	}
+	cj, _ := json.Marshal(cc.Case.Costs)
+	for i, cell := range res.Cells {
+		pr, exp := cc.Case.Table[i], cc.TableExp[i]
+		c.AddEvals(1)
+		c.Class(exp.Class)
+		k.add(func() {
+			k.cells++
+			if exp.Ok && strings.Contains(exp.Class, "#") && !strings.Contains(exp.Class, "#1|") {
+				k.cellsNonFirstCustom++
+			}
+			if strings.HasSuffix(exp.Class, "outside-the-abstract-schema") {
+				k.cellsExtra++
+			}
+		})
+		args := "{}"
+		if pr.HasX {
+			args = fmt.Sprintf("{x: %d}", pr.X)
+		}
+		call := fmt.Sprintf("[%s] Complexity(%q, %q, childComplexity=%d, args=%s) with the ComplexityRoot functions %s", binding, pr.Type, pr.Field, pr.Child, args, cj)
+		switch {
+		case cell.Panic != "":
+			c.Violate("complexity-switch-panics", fmt.Sprintf("%s panicked: %s", call, cell.Panic), replay)
+		case exp.Ok && !cell.Ok:
+			c.Violate("custom-cost-ignored:"+pr.Type+"."+pr.Field, fmt.Sprintf("%s answers \"no custom cost\" (%d, false); a function is configured on the entry that serves this field, its value is %d", call, cell.V, exp.V), replay)
+		case !exp.Ok && cell.Ok:
+			c.Violate("custom-cost-misattributed:"+pr.Type+"."+pr.Field, fmt.Sprintf("%s answers (%d, true); no function is configured on the entry that serves this field", call, cell.V), replay)
+		case exp.Ok && cell.V != exp.V:
+			c.Violate("custom-cost-differs:"+pr.Type+"."+pr.Field, fmt.Sprintf("%s answers %d, the configured function gives %d", call, cell.V, exp.V), replay)
+		}
+	}
 }
 
 // ---------------------------------------------------------------------------
 
-func runHandWritten(c *vlib.Check, k *counters, schema *ast.Schema, concs []*Conc) {
+func runHandWritten(c *vlib.Check, k *counters, schema *ast.Schema, binding map[string]map[string]string, concs []*Conc) {
 	ch := make(chan *Conc, 256)
 	var wg sync.WaitGroup
 	for w := 0; w < 6; w++ {
@@ -702,7 +861,7 @@ func runHandWritten(c *vlib.Check, k *counters, schema *ast.Schema, concs []*Con
 		go func() {
 			defer wg.Done()
 			for cc := range ch {
-				es := &hwES{schema: schema, costs: cc.Case.Costs}
+				es := &hwES{schema: schema, binding: binding, costs: cc.Case.Costs}
 				res := ur.C14Exec(es, &cc.Case)
 				judge(c, k, "hand-written schema", false, cc, res)
 			}
@@ -715,7 +874,7 @@ func runHandWritten(c *vlib.Check, k *counters, schema *ast.Schema, concs []*Con
 	wg.Wait()
 }
 
-func runProbe(c *vlib.Check, k *counters, bin, variant string, concs []*Conc, procs int) {
+func runProbe(c *vlib.Check, k *counters, bin, variant string, concs []*Conc, procs int, extras []ur.C14Probe) {
 	ch := make(chan *Conc, 256)
 	var wg sync.WaitGroup
 	var emu sync.Mutex
@@ -735,6 +894,9 @@ func runProbe(c *vlib.Check, k *counters, bin, variant string, concs []*Conc, pr
 			}
 			defer p.Close()
 			for cc := range ch {
+				if len(cc.Case.Table) > 0 && len(extras) > 0 && len(cc.Case.Table) == len(cc.Abs.Table) {
+					cc = withExtras(cc, extras)
+				}
 				if err := p.Send(&cc.Case); err != nil {
 					judge(c, k, "generated "+variant, true, cc, nil)
 					_ = p.Restart()
@@ -796,6 +958,100 @@ func checkProbeSchema(bin string, s *SchemaA) {
 	}
 }
 
+func norm(s string) string { return strings.ToLower(strings.ReplaceAll(s, "_", "")) }
+
+// checkProbeBinding makes sure the generated probe realises the binding the specification assumes
+// (state bnd): it reads the generated ComplexityRoot by reflection - not through the Complexity() switch
+// under test - and compares entries, argument signatures, declaration order inside every group and which
+// fields are resolver-backed. It returns the (type, field) pairs of the probe's schema that the abstract
+// schema does not mention.
+func checkProbeBinding(bin string, s *SchemaA) []ur.C14Probe {
+	p, err := vlib.StartProc(bin, nil)
+	if err != nil {
+		vlib.Infra("probe layout: %v", err)
+	}
+	defer p.Close()
+	if err := p.Send(&ur.C14Case{Cmd: "c14", ID: "layout", Layout: true}); err != nil {
+		vlib.Infra("probe layout: %v", err)
+	}
+	var res ur.C14Result
+	if err := p.Recv(&res, 30*time.Second); err != nil || res.Layout == nil {
+		vlib.Infra("probe layout: %v %s", err, res.Err)
+	}
+	l := res.Layout
+	for tn, t := range s.Schema {
+		if t.Kind != "OBJECT" {
+			continue
+		}
+		order := l.Order[tn]
+		pos := map[string]int{}
+		for i, f := range order {
+			pos[f] = i
+		}
+		entries := l.Entries[tn]
+		want := map[string][]string{} // normalised entry -> its fields
+		for fn, fd := range t.Fields {
+			if _, ok := pos[fn]; !ok {
+				vlib.Infra("probe schema lacks %s.%s", tn, fn)
+			}
+			e := s.Binding[tn][fn]
+			if !strings.HasPrefix(e, tn+".") {
+				vlib.Infra("the model binds %s.%s to %q", tn, fn, e)
+			}
+			key := norm(strings.TrimPrefix(e, tn+"."))
+			want[key] = append(want[key], fn)
+			found := false
+			for en, argc := range entries {
+				if norm(en) == key {
+					found = true
+					if (fd.Arg && argc < 1) || (!fd.Arg && argc != 0) {
+						vlib.Infra("ComplexityRoot.%s.%s takes %d arguments, the model says arg=%v for %s", tn, en, argc, fd.Arg, fn)
+					}
+				}
+			}
+			if !found {
+				vlib.Infra("the generated ComplexityRoot.%s has no entry for %q (field %s): the probe does not realise the model's binding (entries %v)", tn, e, fn, entries)
+			}
+			if fd.How != "" {
+				isRes := fd.How == "resolver" || fd.How == "resolver-own"
+				if l.Res[tn+"."+fn] != isRes {
+					vlib.Infra("%s.%s: the model says how=%s, the probe says resolver-backed=%v", tn, fn, fd.How, l.Res[tn+"."+fn])
+				}
+			}
+		}
+		// a type the model describes completely must have exactly the model's entries (one per group)
+		if len(order) == len(t.Fields) && len(entries) != len(want) {
+			vlib.Infra("ComplexityRoot.%s has %d entries %v, the model's binding has %d groups %v", tn, len(entries), entries, len(want), want)
+		}
+		// ord = declaration order inside the group
+		for key, fs := range want {
+			sort.Slice(fs, func(i, j int) bool { return pos[fs[i]] < pos[fs[j]] })
+			for i, fn := range fs {
+				if t.Fields[fn].Ord != i+1 {
+					vlib.Infra("%s.%s is declared %d. of the fields of entry %s in the probe, the model says %d.", tn, fn, i+1, key, t.Fields[fn].Ord)
+				}
+			}
+		}
+	}
+	var extras []ur.C14Probe
+	tns := make([]string, 0, len(l.Order))
+	for tn := range l.Order {
+		tns = append(tns, tn)
+	}
+	sort.Strings(tns)
+	for _, tn := range tns {
+		for _, fn := range l.Order[tn] {
+			if t, ok := s.Schema[tn]; ok {
+				if _, ok := t.Fields[fn]; ok {
+					continue
+				}
+			}
+			extras = append(extras, ur.C14Probe{Type: tn, Field: fn, Child: 4})
+		}
+	}
+	return extras
+}
+
 func replayOne(c *vlib.Check, path string, schemaOf func() (*SchemaA, *ast.Schema)) {
 	b, err := os.ReadFile(path)
 	if err != nil {
@@ -820,12 +1076,12 @@ func replayOne(c *vlib.Check, path string, schemaOf func() (*SchemaA, *ast.Schem
 				if err != nil {
 					vlib.Infra("build probe: %v", err)
 				}
-				runProbe(c, k, bin, vname, []*Conc{cc}, 1)
+				runProbe(c, k, bin, vname, []*Conc{cc}, 1, nil)
 			}
 		}
 	} else {
-		_, schema := schemaOf()
-		runHandWritten(c, k, schema, []*Conc{cc})
+		sa, schema := schemaOf()
+		runHandWritten(c, k, schema, sa.Binding, []*Conc{cc})
 	}
 	c.Set("rule", "replay of one recorded scenario")
 	c.Sample(map[string]any{"replayed": path})
@@ -878,7 +1134,7 @@ func main() {
 	if thorough {
 		gateCfg = "MC_ComplexityGate_thorough.cfg"
 	}
-	var small, thm, grid, gen, frag, gate *tlcOut
+	var small, thm, grid, gen, frag, gate, bind *tlcOut
 	var wg sync.WaitGroup
 	wg.Add(6)
 	go func() {
@@ -893,14 +1149,16 @@ func main() {
 	go func() { defer wg.Done(); thm = runTLC(thmCfg, "tlc-thm", 2, false, false, 40*time.Minute) }()
 	go func() {
 		defer wg.Done()
+		// two short runs one after the other (at most six TLC processes at a time)
 		grid = runTLC("MC_Complexity_grid.cfg", "tlc-grid", 1, true, false, 10*time.Minute)
+		bind = runTLC("MC_Complexity_bind.cfg", "tlc-bind", 1, true, false, 15*time.Minute)
 	}()
 	go func() { defer wg.Done(); gen = runTLC(genCfg, "tlc-gen", 1, true, false, 40*time.Minute) }()
 	wg.Wait()
 	if thm.res.Distinct != gen.res.Distinct {
 		vlib.Infra("the theorem run (%d states) and the emission run (%d states) explored different state spaces", thm.res.Distinct, gen.res.Distinct)
 	}
-	for _, t := range []*tlcOut{small, thm, grid, gen, frag, gate} {
+	for _, t := range []*tlcOut{small, thm, grid, gen, frag, gate, bind} {
 		c.AddStates(t.res.Distinct, t.res.Generated)
 	}
 	if thorough {
@@ -911,6 +1169,7 @@ func main() {
 		}
 	}
 	fmt.Fprintf(os.Stderr, "TLC: frag %d cases %.0fs, %s %d histories (%d states) %.0fs\n", len(frag.cases), frag.res.WallS, gateCfg, len(gate.cases), gate.res.Distinct, gate.res.WallS)
+	fmt.Fprintf(os.Stderr, "TLC: bind %d cases (%d states) %.0fs\n", len(bind.cases), bind.res.Distinct, bind.res.WallS)
 	fmt.Fprintf(os.Stderr, "TLC: small %d states %.0fs, theorems %s %d states %.0fs, grid %d cases %.0fs, %s %d cases %.0fs\n",
 		small.res.Distinct, small.res.WallS, thmCfg, thm.res.Distinct, thm.res.WallS, len(grid.cases), grid.res.WallS, genCfg, len(gen.cases), gen.res.WallS)
 	if fmt.Sprint(grid.schema.Max) != fmt.Sprint(gen.schema.Max) || conc(gen.schema.Max) != math.MaxInt64 {
@@ -955,6 +1214,24 @@ func main() {
 	add("grid", grid.cases)
 	add("frag", frag.cases)
 	add("gen", gen.cases)
+	// shared ComplexityRoot entries: operations through every field of every group, and the Complexity() table
+	var bindOps []*CaseJ
+	nTable := 0
+	for i, cs := range bind.cases {
+		if len(cs.Sels) == 0 {
+			if len(cs.Table) == 0 {
+				vlib.Infra("MC_Complexity_bind.cfg printed a case without operation and without table")
+			}
+			concs = append(concs, concretiseTable(schemaA, i, cs))
+			nTable++
+			continue
+		}
+		bindOps = append(bindOps, cs)
+	}
+	if fmt.Sprint(bind.schema.Binding) != fmt.Sprint(schemaA.Binding) || len(schemaA.Binding) == 0 {
+		vlib.Infra("the corpora were generated under different bindings")
+	}
+	add("bind", bindOps)
 	nHist := 0
 	for i, h := range gate.cases {
 		if len(h.Hist) == 0 {
@@ -967,7 +1244,7 @@ func main() {
 	// 4. replay against the real code
 	k := &counters{}
 	t0 := time.Now()
-	runHandWritten(c, k, schema, concs)
+	runHandWritten(c, k, schema, schemaA.Binding, concs)
 	fmt.Fprintf(os.Stderr, "hand-written schema: %d concrete cases in %.1fs\n", len(concs), time.Since(t0).Seconds())
 
 	b := <-bch
@@ -977,21 +1254,26 @@ func main() {
 	var pw sync.WaitGroup
 	for _, v := range probeVariants() {
 		checkProbeSchema(b.bins[v.ID()], schemaA)
+		extras := checkProbeBinding(b.bins[v.ID()], schemaA)
+		if len(extras) == 0 {
+			vlib.Infra("the probe's schema has no field outside the abstract schema (vacuous)")
+		}
 		pw.Add(1)
 		go func(v vlib.Variant) {
 			defer pw.Done()
 			t1 := time.Now()
-			runProbe(c, k, b.bins[v.ID()], v.ID(), concs, 3)
+			runProbe(c, k, b.bins[v.ID()], v.ID(), concs, 3, extras)
 			fmt.Fprintf(os.Stderr, "generated %s: %d concrete cases in %.1fs\n", v.ID(), len(concs), time.Since(t1).Seconds())
 		}(v)
 	}
 	pw.Wait()
 
 	// 5. non-vacuity and evidence
-	if k.rejected == 0 || k.admitted == 0 || k.stats == 0 || k.multi == 0 || k.spreads == 0 || k.iface == 0 || k.argvar == 0 || k.sat == 0 || k.respread == 0 || k.histReqs == 0 || k.histCached == 0 {
+	if k.rejected == 0 || k.admitted == 0 || k.stats == 0 || k.multi == 0 || k.spreads == 0 || k.iface == 0 || k.argvar == 0 || k.sat == 0 || k.respread == 0 || k.histReqs == 0 || k.histCached == 0 ||
+		k.nonFirst == 0 || k.nonFirstRej == 0 || k.nonFirstAdm == 0 || k.cells == 0 || k.cellsNonFirstCustom == 0 || k.cellsExtra == 0 || nTable == 0 {
 		vlib.Infra("vacuous run: %+v", k)
 	}
-	c.Set("rule", "TLC enumerates every selection tree over the abstract schema (objects, interface Node with implementors A/B/Named, union U; fields, arguments, inline fragments, fragment spreads, __typename, __schema) with at most MaxSize nodes (quick 3, thorough 4; siblings in canonical order, the concretiser permutes them) x every assignment of the cost-function family {const 0/2/-1/H/H+1/MAX-1/MAX, child+0/2/MAX-1, child*2, child-1, child+arg} to at most two Type.field slots plus the uniform assignments, plus the safeAdd grid corpus (7 two-cost operation shapes x all pairs of the 12-point int boundary grid), plus the fragment corpus (one named fragment spread 2-3 times: sibling fields, different parent types, nested, twice in one selection set, inside another fragment; 30 shapes x cost pairs incl. child*k); the spec prescribes Cx and the gate decision for limits {Cx-1, Cx, Cx+1, 0, MAX}. Each case runs against complexity.Calculate and an HTTP POST per limit on handler.Server+ComplexityLimit, over a hand-written ExecutableSchema and over generated servers (both layouts). ComplexityGate.tla adds histories: one server (query cache none/MapCache/lru/lru of size 1) receives every sequence of 2 (thorough 3, optionally another query text in between) requests with the same query text whose cost depends on the request variable $n in {absent, 3, 100} at limit Cx-1 or Cx; each request is judged against its own prescribed decision. A class is distinct by (tree shape, cost-assignment class, limit relation or cache kind + request sequence).")
+	c.Set("rule", "TLC enumerates every selection tree over the abstract schema (objects, interface Node with implementors A/B/Named, union U; fields, arguments, inline fragments, fragment spreads, __typename, __schema) with at most MaxSize nodes (quick 3, thorough 4; siblings in canonical order, the concretiser permutes them) x every assignment of the cost-function family {const 0/2/-1/H/H+1/MAX-1/MAX, child+0/2/MAX-1, child*2, child-1, child+arg} to at most two Type.field slots plus the uniform assignments, plus the safeAdd grid corpus (7 two-cost operation shapes x all pairs of the 12-point int boundary grid), plus the fragment corpus (one named fragment spread 2-3 times: sibling fields, different parent types, nested, twice in one selection set, inside another fragment; 30 shapes x cost pairs incl. child*k); the spec prescribes Cx and the gate decision for limits {Cx-1, Cx, Cx+1, 0, MAX}. Each case runs against complexity.Calculate and an HTTP POST per limit on handler.Server+ComplexityLimit, over a hand-written ExecutableSchema and over generated servers (both layouts). ComplexityGate.tla adds histories: one server (query cache none/MapCache/lru/lru of size 1) receives every sequence of 2 (thorough 3, optionally another query text in between) requests with the same query text whose cost depends on the request variable $n in {absent, 3, 100} at limit Cx-1 or Cx; each request is judged against its own prescribed decision. Custom cost functions are configured per ComplexityRoot ENTRY; the binding (state bnd: which entry serves which GraphQL field) is part of the model, and the object Sh has entries shared by 2-3 GraphQL fields in every way gqlgen supports (gqlgen.yml fieldName, @goField(name:), new_foo/newFoo collapsing to one Go name, a resolver-backed field sharing the Go name, struct field and method with an argument; declared first/second/last). The bind corpus sends operations through EVERY field of every group (alone, two of a group side by side, below one named fragment spread twice, two groups side by side; arguments as literal/variable/variable default) x cost assignments on the shared entry, its parent and its child, with the gate limits as above; and the Complexity() table calls the generated ExecutableSchema.Complexity(type, field, child, args) directly for EVERY (type, field) of the probe's schema x child in {0,4} x argument absent/set under {each entry alone with const 2 / child+2 / child+arg, all entries const 7, none} and compares with the specification's GenComplexity (fields outside the abstract schema are served by their own, never configured, entry). A class is distinct by (tree shape, cost-assignment class, limit relation or cache kind + request sequence) resp. (type.field, way of binding and declaration position, cost class, argument, custom or not).")
 	c.Set("exhaustive", true)
 	c.Set("tlc", map[string]any{
 		"small_theorems": map[string]any{"distinct": small.res.Distinct, "wall_s": small.res.WallS},
@@ -1000,15 +1282,20 @@ func main() {
 		"fragments":      map[string]any{"distinct": frag.res.Distinct, "cases": len(frag.cases), "wall_s": frag.res.WallS},
 		"gate_histories": map[string]any{"config": gateCfg, "distinct": gate.res.Distinct, "histories": len(gate.cases), "wall_s": gate.res.WallS},
 		"corpus":         map[string]any{"config": genCfg, "distinct": gen.res.Distinct, "cases": len(gen.cases), "wall_s": gen.res.WallS},
+		"shared_entries": map[string]any{"distinct": bind.res.Distinct, "cases": len(bind.cases), "operations": len(bindOps), "table_assignments": nTable, "wall_s": bind.res.WallS},
 	})
 	c.Set("concrete_cases", len(concs))
 	c.Set("observed", map[string]any{"calculate_calls": k.calcs, "requests_over_limit": k.rejected, "requests_within_limit": k.admitted,
 		"stats_observed": k.stats, "stats_observed_on_rejected": k.statsRej, "multi_operation_documents": k.multi,
 		"documents_with_named_fragments": k.spreads, "interface_field_cases": k.iface, "cases_with_variables": k.argvar, "saturated_at_MaxInt": k.sat,
-		"documents_spreading_one_fragment_repeatedly": k.respread, "history_requests": k.histReqs, "history_requests_after_first_on_caching_server": k.histCached})
+		"documents_spreading_one_fragment_repeatedly": k.respread, "history_requests": k.histReqs, "history_requests_after_first_on_caching_server": k.histCached,
+		"cases_through_a_non_first_field_of_a_shared_entry": k.nonFirst, "their_requests_over_limit": k.nonFirstRej, "their_requests_within_limit": k.nonFirstAdm,
+		"complexity_table_cells": k.cells, "table_cells_custom_cost_via_non_first_field": k.cellsNonFirstCustom, "table_cells_of_fields_outside_the_abstract_schema": k.cellsExtra})
+	c.Set("binding", schemaA.Binding)
 	c.Set("histories", nHist)
 	c.Assume("the cost functions of the family are the harness's own user code (saturating at both ends); user functions that overflow by themselves are outside the statement")
 	c.Assume("symbolic integers h*H+d (H=(MaxInt-1)/2) are compared lexicographically: exact while |d| < H/2; the model keeps |d| < 100 (invariant TDSmall) and the lemma PairAlgebra is checked by TLC")
+	c.Assume("the probe realises the model's binding: checked before the replay by reading the generated ComplexityRoot struct by reflection (entries, signatures, declaration order inside each group, resolver-backed fields), not through the Complexity() switch under test")
 	c.Assume("hand-written schema: 'a resolver ran' is observed as ExecutableSchema.Exec being invoked; generated servers: resolver Start events of the universal resolver")
 	// samples: one per source / interesting feature
 	pick := func(pred func(*Conc) bool) {
@@ -1039,5 +1326,30 @@ func main() {
 	pick(func(cc *Conc) bool {
 		return cc.Src == "gen" && strings.Contains(cc.Shape, "~") && strings.Contains(cc.CostCls, "neg")
 	})
+	pick(func(cc *Conc) bool {
+		return cc.Src == "bind" && cc.NonFirst && strings.Contains(cc.Shape, "stock(x)") && strings.Contains(cc.CostCls, "argmul") && len(cc.Case.Costs) == 1
+	})
+	pick(func(cc *Conc) bool {
+		return cc.Src == "bind" && strings.Contains(cc.Shape, "~Sh{new_bar") && len(cc.Case.Costs) == 2 && len(cc.Case.Vars) > 0
+	})
+	pick(func(cc *Conc) bool {
+		return cc.Src == "bind" && strings.Contains(cc.Shape, "twoFoo,oldFoo") && strings.Contains(cc.CostCls, "mul")
+	})
+	for _, cc := range concs {
+		if cc.Src == "table" && len(cc.Case.Costs) == 1 {
+			if _, ok := cc.Case.Costs["Sh.NewBar"]; ok && cc.CostCls == "arg" {
+				var probes []ur.C14Probe
+				var exp []CellExp
+				for i, pr := range cc.Case.Table {
+					if pr.Type == "Sh" && pr.Child == 4 && (pr.HasX || !cc.TableExp[i].Ok) {
+						probes = append(probes, pr)
+						exp = append(exp, cc.TableExp[i])
+					}
+				}
+				c.Sample(map[string]any{"complexity_table": "direct calls of the generated Complexity()", "costs": cc.Case.Costs, "probes": probes, "expected": exp})
+				break
+			}
+		}
+	}
 	c.Finish()
 }
